@@ -23,7 +23,7 @@ ASSUMPTIONS = ["to_spherical's range contract (atan2 in [-pi,pi], acos in [0,pi]
                "real arithmetic with the float constants taken exactly; IEEE rounding of the 6 operations of to_lonlat is below the 1e-9 slack"]
 
 
-def h_range(c, res):
+def h_range(c, res, which=None):
     sf.install_float_mode(c, "real")
     import a5
     import a5.core.cell as cell_mod
@@ -62,7 +62,11 @@ def h_range(c, res):
     ct.authalic.inverse = inv
     cell_mod._dodecahedron = StubProj(real_d)
     try:
-        cid = a5.lonlat_to_cell((10.0, 20.0), res) if res >= 0 else 0
+        if which is None:
+            cid = a5.lonlat_to_cell((10.0, 20.0), res) if res >= 0 else 0
+        else:
+            # resolutions 0 and 1 have 12 + 60 cells: every one of them is taken (the ids carry face and segment)
+            cid = a5.cell_to_children(0, res)[which]
         cell_mod._dodecahedron = StubProj(real_d)
         lon, lat = a5.cell_to_lonlat(cid)
     finally:
@@ -109,6 +113,9 @@ def h_ieee(seed=0):
 def jobs(tier, seed):
     js = [Job("range[res=%d]" % r, "h_range", {"res": r}, {"logic": None, "query_timeout_ms": 300000}, weight=5)
           for r in ((0, 1, 5) if tier == "quick" else (0, 1, 2, 5, 9, 20, 29))]
+    for res, n in ((0, 12), (1, 60)):
+        for w in range(n):
+            js.append(Job("range[res=%d,cell=%d]" % (res, w), "h_range", {"res": res, "which": w}, {"logic": None, "query_timeout_ms": 300000}, weight=1))
     js.append(Job("skeleton", "h_skeleton", {}, {}, weight=2))
     js.append(Job("ieee-extremes", "h_ieee", {}, {"direct": True}))
     js.extend(selftests(seed))
